@@ -280,6 +280,15 @@ pub fn judge(c: &Case, st: &mut Stats) -> Verdict {
         let want_text = s.as_str();
         // the way it really arrives: the receiver has looked at the buffer before - when it ended in front of the CR, right
         // behind it, in the middle of the line - and was told to wait each time
+        // (and a line of another connection that ended exactly where a line break of the payload lies has just been accepted)
+        for lb in crate::props::c04::later_line_breaks(with.as_bytes(), s.len()) {
+            if let Some(l) = crate::props::c04::line_ending_at(lb) {
+                let _ = imp::v1_bytes(&l);
+                if let Ok(ls) = std::str::from_utf8(&l) {
+                    let _ = imp::v1_str(ls);
+                }
+            }
+        }
         for cut in [s.len() / 2, s.len() - 2, s.len() - 1] {
             let _ = imp::v1_str(&with[..cut]);
             let _ = imp::v1_bytes(&with.as_bytes()[..cut]);
